@@ -333,7 +333,7 @@ class Conc:
         from ..concretise import var_names
         self.cols = list(inst["cols"])
         self.dom = inst["dom"]
-        self.vn = var_names(self.cols, rng, rng.choice(["str", "str", "ident"]))      # column labels are strings (see assumptions)
+        self.vn = var_names(self.cols, rng, rng.choice(["str", "str", "ident", "smallint"]))      # column labels: strings or small ints
         self.kind = {c: (kinds or {}).get(c) or rng.choice(["str", "str", "int", "cat", "float"]) for c in self.cols}
         self.sn = {}
         for c in self.cols:
